@@ -210,6 +210,39 @@ def check(run, ctx):
             continue
         for k, how, line, fn in kinds.kind_literals(repo, ctx.cg, m):
             _kind_verdict(run, N4, g[lang], lang, m, k, how, line, fn, ANON_OK)
+    # ------------------------------------------------------------- N5
+    from . import shared
+
+    N5 = run.rule("N5", "traversal completeness: the depth walkers and function collectors descend into every child (no statement-bearing field or subtree is skipped)", floor=4,
+                  decides="the deepest statement is found wherever it sits (inside match/case arms, handlers, else branches, nested blocks)")
+    vch = repo.func(f"{PKG}.python_analyzer._visit_children")
+    loops = [n for n in ast.walk(vch.node) if isinstance(n, (ast.For, ast.comprehension))]
+    uses_all = any(is_call_named(n.iter, "iter_child_nodes") for n in loops)
+    if uses_all:
+        run.ok(N5, "python _visit_children", "ast.iter_child_nodes(node): every child")
+    else:
+        need = shared.statement_fields()
+        have = {c.value for c in ast.walk(vch.node) if isinstance(c, ast.Constant) and isinstance(c.value, str)} | {v for c in ast.walk(vch.node) if isinstance(c, ast.Name) for v in (repo.fold(vch.module, c) if isinstance(repo.fold(vch.module, c), (tuple, list, set, frozenset)) else ())}
+        missing = sorted(need - have)
+        if missing:
+            run.finding(N5, "python_analyzer._visit_children", f"fields-skipped:{missing}", f"_visit_children no longer iterates all child nodes and its field list lacks {missing} (Python's statement-bearing fields are {sorted(need)}): control structures nested there are never counted", vch.loc)
+        else:
+            run.ok(N5, "python _visit_children", f"field list covers {sorted(need)}")
+    for fn in ("_visit_control_structure", "_visit_if_node"):
+        f = repo.func(f"{PKG}.python_analyzer.{fn}")
+        if fn == "_visit_if_node":
+            ok = contains(f.node, lambda x: isinstance(x, ast.Attribute) and x.attr == "body") and contains(f.node, lambda x: isinstance(x, ast.Attribute) and x.attr == "orelse")
+        else:
+            ok = any(is_call_named(x, "_visit_children") for x in ast.walk(f.node))
+        (run.ok(N5, f"python {fn}", "descends into the construct's blocks") if ok else run.finding(N5, f"python_analyzer.{fn}", "no-descent", f"{fn} does not descend into the construct's blocks", f.loc))
+    for lang, cq in (("typescript", f"{PKG}.typescript_analyzer.TypeScriptNestingAnalyzer.calculate_max_depth"), ("rust", f"{PKG}.rust_analyzer.RustNestingAnalyzer.calculate_max_depth")):
+        f = repo.func(cq)
+        inner = next(n for n in ast.walk(f.node) if isinstance(n, ast.FunctionDef) and n.name == "visit_node")
+        loops = [n for n in ast.walk(inner) if isinstance(n, ast.For)]
+        ok = len(loops) == 1 and ast.unparse(loops[0].iter) == "node.children" and not any(isinstance(x, (ast.If, ast.Continue, ast.Break)) for x in loops[0].body) and not any(isinstance(x, ast.Return) for x in ast.walk(inner))
+        (run.ok(N5, f"{lang} visit_node", "for child in node.children: visit_node(child, ...) unconditionally") if ok else run.finding(N5, f"{lang} visit_node", "pruned-walk", f"the {lang} depth walker does not visit every child unconditionally", f.loc))
+    for rec in shared.collector_walkers(ctx, prefixes=(PKG,)):
+        (run.ok(N5, rec["func"], rec["detail"]) if rec["ok"] else run.finding(N5, rec["func"], "pruned-walk", f"{rec['func']}: {rec['detail']}: functions nested below such a node are never analysed", rec["loc"]))
     run.extra["walker_signatures"] = {k: {a: b for a, b in v.items() if a != "loc"} for k, v in sigs.items()}
     return __doc__
 
